@@ -17,12 +17,13 @@ from __future__ import annotations
 
 import ast
 
-from ..affine import Lin, lin
-from ..facts import atoms, call_is, meth_is, slice_bounds, strip
+from ..affine import Lin, lin, offset_canon
+from ..helpers import ancestor_chains, term_lookup
+from ..facts import alternatives, atoms, call_is, cases, meth_is, simplify, slice_bounds, strip
 from ..model import AnalysisError
 from ..paths import find_loops
 from ..seq import Const, Field, Layouts, flatten, total
-from ..terms import is_const, show, subterms, summarize
+from ..terms import FLIP, NEG, State, is_const, show, subterms, summarize
 
 V3 = "msmart.lan._LanProtocolV3"
 DR = f"{V3}.data_received"
@@ -91,10 +92,12 @@ def check_reassembly(ctx, R, DR, MARKER, size_ok, size_desc, min_packet=8):
         info = s.loops[l]
         for st in info["ends"] + info["continues"]:
             for k, v in st.env.items():
-                if k.startswith(self_p + ".") and strip(v)[0] in ("slice", "call", "const") and strip(v)[0] != "mut" \
+                if k.startswith(self_p + ".") and strip(v)[0] in ("slice", "call", "const", "ite") and strip(v)[0] != "mut" \
                         and v != info["head"].env.get(k) and k.count(".") == 1:
                     ext_loop, buf_key = l, k
-    puts = [n for n in ast.walk(fn.node) if isinstance(n, ast.Call) and isinstance(n.func, ast.Attribute) and n.func.attr == "put_nowait"]
+    put_sites = ancestor_chains(prog, fn, lambda f, n: isinstance(n.func, ast.Attribute) and n.func.attr == "put_nowait")
+    puts = [n for _f, n, _ch in put_sites]
+    tl = term_lookup(prog, fn)
     ctx.ob(R + ".d", DR, ext_loop is not None, "packet extraction happens inside a loop (several packets per segment are all delivered now)",
            func=DR, file=file, construct="extraction loop",
            fail="packets are not extracted in a loop: with several packets in one segment only the first is delivered when its last byte arrives")
@@ -105,6 +108,23 @@ def check_reassembly(ctx, R, DR, MARKER, size_ok, size_desc, min_packet=8):
     attr = buf_key.split(".", 1)[1]
     B0 = ("attr", ("param", self_p), attr)
     Bh = ("loopvar", buf_key, ext_loop.lineno)
+    # offset arithmetic on the buffer (buffer[start + a:start + b], len(buffer) - start) is read as operations on the view
+    # buffer[start:]; valid for 0 <= start <= len(buffer), i.e. under the 'marker found' fact required below
+    used_offsets = []
+
+    def is_off(sym):
+        y = strip(sym)
+        return meth_is(y, "find") and strip(y[1][1]) == Bh and y[2] == (("const", MARKER),)
+
+    def oc(x):
+        return offset_canon(x, Bh, is_off, used_offsets)
+
+    def ost(st):
+        return State({k: oc(v) for k, v in st.env.items()}, tuple((oc(c), tr) for c, tr in st.pc))
+    info = dict(info)
+    info["returns"] = [(ost(st), n) for st, n in info["returns"]]
+    for key in ("breaks", "ends", "continues"):
+        info[key] = [ost(st) for st in info[key]]
     # entry: accumulate
     entry_v = info["entry"].env.get(buf_key)
     acc = entry_v is not None and strip(entry_v)[0] == "bin" and strip(entry_v)[1] == "+" and strip(strip(entry_v)[2]) == B0 \
@@ -130,49 +150,79 @@ def check_reassembly(ctx, R, DR, MARKER, size_ok, size_desc, min_packet=8):
     # every early return of the callback is caused by the leading packet being incomplete (or no marker / no data):
     # any other condition can hold back a packet whose last byte has arrived
     loop_returns = {id(n) for _st, n in info["returns"]}
-    all_returns = [(st, n) for st, n in info["returns"]] + [(rst, n) for _pc, _t, n, rst in s.returns if n is not None and id(n) not in loop_returns]
-    for st, node in all_returns:
+    all_exits = [(st, n, "return") for st, n in info["returns"]] + [(ost(rst), n, "return") for _pc, _t, n, rst in s.returns if n is not None and id(n) not in loop_returns] \
+        + [(st, ext_loop, "break") for st in info["breaks"]]
+
+    def incomplete(a):
+        """atom -> why it means 'no complete packet is buffered' (None: it does not)"""
+        a = strip(a)
+        truth = True
+        while a[0] == "un" and a[1] == "not":
+            a, truth = strip(a[2]), not truth
+        if a[0] == "cmp":
+            op = a[1] if truth else NEG.get(a[1])
+            l, r = strip(a[2]), strip(a[3])
+            if op in FLIP and not (meth_is(l, "find") or call_is(l, "len")) and (meth_is(r, "find") or call_is(r, "len")):
+                l, r, op = r, l, FLIP[op]
+            if meth_is(l, "find") and ((r == ("const", -1) and op == "==") or (r == ("const", 0) and op == "<") or (r == ("const", -1) and op == "<=")):
+                return "no marker in the buffer"
+            if call_is(l, "len") and strip(l[2][0])[0] == "slice" and op in ("<", "<="):
+                return "leading packet incomplete"
+            if call_is(l, "len") and strip(l[2][0]) == ("param", data_p) and ((op == "==" and r == ("const", 0)) or (op == "<" and r == ("const", 1))):
+                return "empty segment"
+            return None
+        if a == ("param", data_p) and not truth:
+            return "empty segment"
+        return None
+
+    def split(st):
+        try:
+            return cases(st.pc)
+        except ValueError:
+            raise AnalysisError(f"{DR}: path condition with too many cases")
+
+    for st, node, kind in all_exits:
         if not st.pc:
             continue
+        # in every case of the path condition some fact says 'nothing complete is buffered'
+        why, bad = set(), None
+        for case in split(st):
+            r = next((incomplete(a) for a in case if incomplete(a)), None)
+            if r is None:
+                bad = case
+            else:
+                why.add(r)
         c, truth = st.pc[-1]
-        cs = strip(c)
-        while cs[0] == "un" and cs[1] == "not":
-            cs, truth = strip(cs[2]), not truth
-        why = None
-        if cs[0] == "cmp":
-            l, r = strip(cs[2]), strip(cs[3])
-            if meth_is(l, "find") and r == ("const", -1) and (cs[1] == "==") == truth:
-                why = "no marker in the buffer"
-            elif meth_is(l, "find") and r == ("const", 0) and ((cs[1] == "<") == truth):
-                why = "no marker in the buffer"
-            elif call_is(l, "len") and strip(l[2][0])[0] == "slice" and ((cs[1] in ("<", "<=")) == truth or (cs[1] in (">=", ">")) != truth):
-                why = "leading packet incomplete"
-            elif call_is(l, "len") and strip(l[2][0]) == ("param", data_p):
-                why = "empty segment"
-        elif cs == ("param", data_p) and not truth:
-            why = "empty segment"
-        ctx.ob(R + ".b", DR, why is not None, f"early return because: {why}", func=DR, file=file, node=node, detail={"condition": show(c)[:100], "truth": truth},
-               fail=f"data_received returns early on `{show(c)[:80]}` is {truth}: a condition other than 'no marker / leading packet incomplete' can hold back a packet whose last byte has arrived")
-    # early returns leave the buffer untouched
-    for st, node in info["returns"]:
-        ctx.count("early_returns")
+        ctx.ob(R + ".b", DR, bad is None and bool(why), f"early {kind} because: {' / '.join(sorted(why))}", func=DR, file=file, node=node,
+               detail={"condition": show(c)[:100], "truth": truth},
+               fail=f"data_received stops early ({kind}) on `{show(c)[:80]}` is {truth}" + (f" [case: {'; '.join(show(a)[:50] for a in bad[-3:])}]" if bad else "") +
+                    ": a condition other than 'no marker / leading packet incomplete' can hold back a packet whose last byte has arrived")
+    # early exits leave the buffer untouched
+    for st, node, kind in [(st, n, "return") for st, n in info["returns"]] + [(st, ext_loop, "break") for st in info["breaks"]]:
+        ctx.count("early_returns", len(split(st)))
         v = st.env.get(buf_key)
-        ctx.ob(R + ".c", DR, v == Bh, "early return keeps the buffered bytes untouched", func=DR, file=file, node=node,
+        vs = {simplify(v, case) for case in split(st)} if v is not None else {None}
+        ctx.ob(R + ".c", DR, vs == {Bh}, f"early {kind} keeps the buffered bytes untouched", func=DR, file=file, node=node,
                detail={"buffer_at_return": show(v) if v else None},
-               fail="an early return modifies / clears the buffer: bytes of a partially received packet are lost")
+               fail=f"an early {kind} modifies / clears the buffer: bytes of a partially received packet are lost")
     # back edges: exactly the extraction
-    edges = info["ends"] + info["continues"]
-    for st in edges:
+    edges = [(st, case) for st in info["ends"] + info["continues"] for case in split(st)]
+    for st, facts in edges:
         ctx.count("back_edges")
-        kept = strip(st.env.get(buf_key, ("top", "?")))
+        kept = strip(simplify(st.env.get(buf_key, ("top", "?")), facts))
         kb = kept if kept[0] == "slice" else None
-        facts = atoms(st.pc)
         if kb is None or kb[3] is not None or kb[4] is not None or kb[2] is None:
             ctx.ob(R + ".c", DR, False, "", func=DR, file=file, construct=f"self.{attr} after extraction",
                    detail={"kept": show(kept)}, fail=f"after an extraction the buffer is `{show(kept)[:80]}`, not the remainder view[N:]")
             continue
         V, N = strip(kb[1]), kb[2]
         ctx.count("buffer_stores")
+        if used_offsets:
+            found = any(a[0] == "cmp" and ((is_off(a[2]) and ((a[1], a[3]) in (("!=", ("const", -1)), (">=", ("const", 0)), (">", ("const", -1))))) or
+                                           (is_off(a[3]) and ((a[1], a[2]) in (("!=", ("const", -1)), ("<=", ("const", 0)), ("<", ("const", -1))))))
+                        for a in facts)
+            ctx.ob(R + ".c", DR, found, "offsets relative to buffer.find(marker) are only used when the marker was found", func=DR, file=file, construct="offset arithmetic",
+                   fail="buffer offsets are computed from find() without excluding -1 (no marker): the wrong bytes are framed")
         # view = Bh[start:], start = Bh.find(marker)
         vb = V if V[0] == "slice" else None
         view_ok = vb is not None and strip(vb[1]) == Bh and vb[3] is None and vb[4] is None and vb[2] is not None \
@@ -183,9 +233,9 @@ def check_reassembly(ctx, R, DR, MARKER, size_ok, size_desc, min_packet=8):
         # delivered slice: the put_nowait argument on this path
         delivered = None
         for p in puts:
-            t = s.ta.terms_at.get(p.args[0]) if p.args else None
+            t = tl(p.args[0]) if p.args else None
             if t is not None:
-                delivered = strip(t)
+                delivered = strip(simplify(oc(t), facts))
         dl = delivered if delivered is not None and delivered[0] == "slice" else None
         part = dl is not None and strip(dl[1]) == V and dl[2] is None and dl[3] == N and dl[4] is None
         ctx.ob(R + ".c", DR, part, "delivered = view[:N] and kept = view[N:] with the same N", func=DR, file=file, construct="partition",
@@ -219,20 +269,15 @@ def check_reassembly(ctx, R, DR, MARKER, size_ok, size_desc, min_packet=8):
         for h in header_consts:
             ctx.ob(R + ".b", DR, h <= min_packet, f"header guard len(view) >= {h} never delays a complete packet (N >= {min_packet})", func=DR, file=file,
                    construct=f"header guard {h}", fail=f"header guard waits for {h} bytes: a complete {min_packet}-byte packet is delayed")
-        # exactly one put per iteration, not in a nested loop
-        par = {}
-        for n in ast.walk(ext_loop):
-            for c in ast.iter_child_nodes(n):
-                par[c] = n
+        # exactly one put per iteration, not in a nested loop (sites inside extracted helpers count through their call sites)
         nput = 0
-        for p in puts:
-            if any(p is x for x in ast.walk(ext_loop)):
+        for _pf, p, chains in put_sites:
+            for chain in chains:
+                nodes = [x for x, _fld in chain]
+                if not any(x is ext_loop for x in nodes):
+                    continue
                 nput += 1
-                n, nested = p, False
-                while n in par and par[n] is not ext_loop:
-                    n = par[n]
-                    if isinstance(n, (ast.For, ast.While)):
-                        nested = True
+                nested = any(isinstance(x, (ast.For, ast.While, ast.AsyncFor)) for x in nodes[:next(i for i, x in enumerate(nodes) if x is ext_loop)])
                 ctx.ob(R + ".d", DR, not nested, "put_nowait is not inside a nested loop", func=DR, file=file, node=p, fail="put_nowait in a nested loop: packets delivered more than once")
         ctx.ob(R + ".d", DR, nput == 1, "exactly one put_nowait per extracted packet", func=DR, file=file, construct="put_nowait sites",
                fail=f"{nput} put_nowait sites in the extraction loop: a packet is delivered {nput} times")
